@@ -76,6 +76,24 @@ CLAIMED = {
     design_ref="DESIGN.md section 6 (C17)",
     note="Lexical escaping of JSON is judged by decoding with serde_json (trusted), not by TLA+. Text/CSV content only for values free of delimiter, quote and line-break characters, as the property states.",
     technique="TLA+ model checking (TLC) of the printer state machine + replay of every bounded behaviour on the real OutputPrinter"),
+ "C13": dict(
+    category="model_checking",
+    text="Grammar.tla holds the reference precedence table of C13, expression trees, Full(t) (fully parenthesised) and Min(t) (minimal parentheses) and a precedence-climbing reference parser; TLC checks Parse(Min(t)) = t = Parse(Full(t)) for every enumerated tree (the grammar is unambiguous, Min is right) and emits both texts. The real parser must produce the same statement for Min(t) - written with spaces and written without any optional whitespace (x=-1, x- -1) - as for Full(t): all operators in trees of up to 2 operator nodes (every ordered operator pair in both nestings), negated operands and literals after every operator, parenthesised operands everywhere, IN lists of one element, subscripts, casts, qualified names, CASE, calls; thorough adds 3-node trees over one operator per level.",
+    design_ref="DESIGN.md section 6 (C13)",
+    note="Bounded tree size. The statement compared is the lowered Statement (Debug form), i.e. what is executed.",
+    technique="TLA+ reference grammar + parser checked by TLC; every tree's minimal and full text parsed by the real parser and compared"),
+ "C20": dict(
+    category="model_checking",
+    text="Lexical.tla models a statement as classified lexemes with a layout state (clause order, per-lexeme letter case, per-gap separator incl. -- comments, leading/trailing separator, semicolon) and edit actions FlipCase / SetSep / SetLead / SetTrail / ToggleSemicolon / SwapClauses. An ideal lexer (whitespace, comments, strings with backslash escapes, words, numbers, two-character operators) is part of the module: TLC checks that every reachable layout state still reads as the base token stream (the edits are layout-only, e.g. separators are only removed where tokens stay separated). Every reachable state is rendered and parsed by the real parser and must give the same statement as the base layout.",
+    design_ref="DESIGN.md section 6 (C20)",
+    note="12 base statements (generated into spec/LexBase.tla by lib/gen_lexbase.py); all single edits, all clause permutations, pairs of edits on a subset (all statements in the thorough tier).",
+    technique="TLA+ layout state machine with an ideal lexer, model checked by TLC; every reachable layout replayed on the real parser"),
+ "C14": dict(
+    category="exploration",
+    text="ParseTotal.tla generates the texts (mutation machine over valid statements: delete / duplicate / swap a lexeme, cut at every character; all token soups over a 51-token vocabulary; known-bad statements that must be errors; nesting up to depth 64) and fixes only the admissible outcome class; the harness parses each text with parse and parse_into_tree under catch_unwind (overflow checks on), checks that an error's position lies inside the text and that extract_near can be produced. Random Unicode strings and character-level mutations are recorded as a trace whose outcome classes TLC validates (Trace_Parse.tla).",
+    design_ref="DESIGN.md section 6 (C14), section 10",
+    note="The specification is a generator/classifier here, not a semantic oracle: exploration level. Stack overflow by nesting beyond the documented bound (64) is out of scope.",
+    technique="TLC-generated mutation / token-soup / nesting cases replayed on the real parser + trace validation of random Unicode inputs"),
 }
 
 TITLES = {}
